@@ -66,7 +66,10 @@ def ev(e, params, x):
             if name == 'gamma': return math.gamma(args[0])
             if name == 'beta': return math.exp(math.lgamma(args[0]) + math.lgamma(args[1]) - math.lgamma(args[0] + args[1]))
             if name == 'erf': return math.erf(args[0])
-            if name == 'binom_coeff': return float(math.comb(int(args[0]), int(args[1])))
+            if name == 'binom_coeff':
+                c_ = math.comb(int(args[0]), int(args[1]))
+                return float(c_) if c_ < 2 ** 64 else float('nan')      # the crate's function returns u64: larger values are not representable
+            if name == 'ln_gamma': return math.lgamma(args[0])
             if name in ('sin', 'cos', 'tan', 'tanh'): return getattr(math, name)(args[0])
         except (ValueError, OverflowError, ZeroDivisionError):
             return float('nan')
@@ -74,7 +77,7 @@ def ev(e, params, x):
     raise Uneval('node %s' % k)
 
 
-def close(a, b, rtol=1e-9):
+def close(a, b, rtol=1e-8):
     if isinstance(a, float) and isinstance(b, float) and (math.isnan(a) or math.isnan(b)):
         return math.isnan(a) and math.isnan(b)
     if a == b:
@@ -89,7 +92,7 @@ EULER = 0.5772156649015329
 
 def _binom_pmf(p, k):
     n, q = p['n'], p['p']
-    return math.comb(n, k) * q ** k * (1 - q) ** (n - k)
+    return math.exp(math.lgamma(n + 1) - math.lgamma(k + 1) - math.lgamma(n - k + 1) + k * math.log(q) + (n - k) * math.log(1 - q))
 
 
 # distribution -> dict(fields=[names in struct order as used], grid=[param dicts], support x values (callable of params),
@@ -143,13 +146,13 @@ TABLE = {
         pdf=lambda p, x: math.gamma((p['dof'] + 1) / 2) / (math.sqrt(p['dof'] * math.pi) * math.gamma(p['dof'] / 2)) * (1 + x * x / p['dof']) ** (-(p['dof'] + 1) / 2),
         mean=lambda p: 0.0, var=lambda p: p['dof'] / (p['dof'] - 2)),
     'poisson::Poisson': dict(
-        grid=[{'lambda': 0.8}, {'lambda': 6.3}, {'lambda': 31.5}],
-        xs=lambda p: [0, 1, 5, 23, 40], discrete=True,
-        pdf=lambda p, k: p['lambda'] ** k * math.exp(-p['lambda']) / math.factorial(k),
+        grid=[{'lambda': 0.8}, {'lambda': 6.3}, {'lambda': 31.5}, {'lambda': 200.0}, {'lambda': 1000.0}],
+        xs=lambda p: [0, 1, 5, 23, 40] if p['lambda'] < 100 else [int(p['lambda']) - 30, int(p['lambda']), int(p['lambda']) + 45], discrete=True,
+        pdf=lambda p, k: math.exp(k * math.log(p['lambda']) - p['lambda'] - math.lgamma(k + 1)),
         mean=lambda p: p['lambda'], var=lambda p: p['lambda']),
     'binomial::Binomial': dict(
-        grid=[{'n': 9, 'p': 0.37}, {'n': 40, 'p': 0.81}],
-        xs=lambda p: [0, 1, 4, p['n']], discrete=True,
+        grid=[{'n': 9, 'p': 0.37}, {'n': 40, 'p': 0.81}, {'n': 70, 'p': 0.5}, {'n': 1000, 'p': 0.31}],
+        xs=lambda p: [0, 1, 4, p['n']] if p['n'] <= 40 else [int(p['n'] * p['p']) - 7, int(p['n'] * p['p']), int(p['n'] * p['p']) + 11], discrete=True,
         pdf=_binom_pmf,
         mean=lambda p: p['n'] * p['p'], var=lambda p: p['n'] * p['p'] * (1 - p['p'])),
     'bernoulli::Bernoulli': dict(
@@ -186,6 +189,7 @@ def compare(alts, ref, points, trivial_ok=True):
             continue
         if uneval is not None:
             return 'undecided', 'an alternative is not evaluable (%s)' % uneval
-        best = min(vals, key=lambda av: abs(av[1] - want) if not math.isnan(av[1]) else float('inf')) if vals else (None, float('nan'))
+        nontriv = [av for av in vals if av[0][0] != 'c'] or vals
+        best = min(nontriv, key=lambda av: abs(av[1] - want) if not math.isnan(av[1]) else float('inf')) if nontriv else (None, float('nan'))
         return 'viol', {'params': pname, 'x': x, 'textbook': want, 'code': best[1], 'all': [v for _, v in vals]}
     return 'ok', n
